@@ -20,7 +20,7 @@ var goGenerators = []string{"generator/go/gounions", "generator/go/randdata", "g
 
 func checkC01(w *World, r *Result) {
 	r.Explanation = "Decides, on the template language of the three Go generators (every Declaration content is abstractly evaluated from the generator source into a sketch: literal text, typed holes, repetitions, alternatives; 0 unclassified holes required): TPL-1 every instantiation (repetitions 0..2, thorough 0..3; every alternative chosen) parses as Go; TPL-3 no comma-separated list can contain an empty element; PRINTF every constant format has exactly the arguments it needs (no %!s(MISSING)/%!(EXTRA)); TPL-2 a stub type-check of the instantiations with holes declared as opaque types reports no literal selector on a user type and no literal identifier that neither the standard library nor a sibling template defines; AGR-C01a in randdata the declaration ID, the generated function name and the name used at call sites come from the same functionID, and the literal names of the basic generators equal go/types' names of their kinds; AGR-C01c every <T>ArrayToPQ / Scan<T>Array a template calls is declared by idArrayConverters(<T>) in the same function under no stronger condition (apart from the documented generateArrayConverter test); AGR-C01q type names are printed relative to the package the generated file belongs to; DECL-ID declaration IDs cover what their content reads (no two different declarations merged, none duplicated). Does not decide: well-formedness of hole fillers for every input (type strings of foreign generic types, identifier collisions between user types), import completeness after goimports. Known: NewDateFrom/.Time() convention required from the user package for local date types."
-	r.Rules = []string{"TPL-1", "TPL-3", "PRINTF", "TPL-2", "AGR-C01a", "AGR-C01c", "AGR-C01q", "AGR-C01u", "AGR-C01g", "TYPE-SRC", "AGR-C15d", "UTF8-SLICE", "DECL-ID", "GEN-ID", "PKG-ID", "ALIAS-APPEND", "CACHE-DROP", "AGR-C11c"}
+	r.Rules = []string{"TPL-1", "TPL-3", "TPL-5", "PRINTF", "TPL-2", "AGR-C01a", "AGR-C01c", "AGR-C01q", "AGR-C01u", "AGR-C01g", "TYPE-SRC", "AGR-C15d", "UTF8-SLICE", "DECL-ID", "GEN-ID", "PKG-ID", "ALIAS-APPEND", "CACHE-DROP", "AGR-C11c"}
 	// the union table consumed by the templates: candidates are the defined named types of the scope, each once (rule shared with C11)
 	checkCandidates(w, r)
 	cacheDropRule(w, r, func(rel string) bool { return rel == "generator/go/gounions" || rel == "generator/go/randdata" || rel == "generator/go/sqlcrud" })
@@ -40,6 +40,7 @@ func checkC01(w *World, r *Result) {
 			return // a format without its arguments cannot be instantiated: the PRINTF report is the verdict
 		}
 	}
+	checkRandNames(w, r)
 	nd, ni := 0, 0
 	for _, rel := range goGenerators {
 		a, b := runTPLGo(w, r, rel, maxRep)
@@ -51,7 +52,6 @@ func checkC01(w *World, r *Result) {
 	if nd < 20 {
 		Undecided("only %d declaration templates extracted from the Go generators", nd)
 	}
-	checkRandNames(w, r)
 	checkConverterClosure(w, r)
 	checkQualifier(w, r)
 	checkUniqueSelectors(w, r)
@@ -289,6 +289,59 @@ func checkRandNames(w *World, r *Result) {
 		}
 		return true
 	})
+	// default clause: nothing but a refusal may use the name of the basic type
+	ast.Inspect(cb.Decl.Body, func(x ast.Node) bool {
+		cc, ok := x.(*ast.CaseClause)
+		if !ok || cc.List != nil {
+			return true
+		}
+		ast.Inspect(&ast.BlockStmt{List: cc.Body}, func(y ast.Node) bool {
+			call, ok := y.(*ast.CallExpr)
+			if !ok || isBuiltinCall(info, call, "panic") {
+				return !ok
+			}
+			for _, a := range call.Args {
+				if c2, ok := ast.Unparen(a).(*ast.CallExpr); ok && fullName(calleeOf(info, c2)) == "(*go/types.Basic).Name" {
+					if fn := calleeOf(info, call); fn != nil && w.Funcs[fn] != nil {
+						r.bad("AGR-C01a", cb.Name, "default: "+es(call), w.Pos(call.Pos()), "the default branch generates a function for every remaining kind from (*types.Basic).Name(): kinds the templates cannot handle (complex64/128 get `complex128(rand.Intn(…))`, which is ill-typed; byte/rune are named differently at the call sites) are accepted instead of refused")
+					}
+				}
+			}
+			return true
+		})
+		return false
+	})
+	// kind -> name tables: every entry is the go/types name of its kind
+	for _, f := range cb.Pkg.Syntax {
+		ast.Inspect(f, func(x ast.Node) bool {
+			lit, ok := x.(*ast.CompositeLit)
+			if !ok {
+				return true
+			}
+			mt, ok := info.TypeOf(lit).Underlying().(*types.Map)
+			if !ok || mt.Key().String() != "go/types.BasicKind" || !isStringType(mt.Elem()) {
+				return true
+			}
+			for _, el := range lit.Elts {
+				kv, ok := el.(*ast.KeyValueExpr)
+				if !ok {
+					continue
+				}
+				ktv, vtv := info.Types[kv.Key], info.Types[kv.Value]
+				if ktv.Value == nil || vtv.Value == nil {
+					continue
+				}
+				k, _ := constant.Int64Val(ktv.Value)
+				if k <= 0 || int(k) >= len(types.Typ) {
+					continue
+				}
+				nb++
+				want, got := types.Typ[k].Name(), constant.StringVal(vtv.Value)
+				r.cond(got == want, "AGR-C01a", cb.Name, "table entry "+es(kv.Key)+": "+got, w.Pos(kv.Pos()), "the name equals go/types' name of the kind ("+want+")", "the kind table maps "+es(kv.Key)+" to \""+got+"\" but call sites use rand"+want+" (functionID = go/types name of the kind): the generated function is declared under another name than the one it is called by")
+			}
+			return true
+		})
+	}
 	if nb < 8 {
 		Undecided("randdata.codeForBasic: only %d kinds recognised", nb)
 	}
